@@ -13,10 +13,9 @@
                   list of its boxes with offsets
   plus the two lists of the Python loop, `qubits` and `bits`.
 
-  Also here: the *specification* `canon` (every diagram wire gets a fresh id when it is created,
-  every command acts on the ids of its input wires), the semantics of a post-processing circuit
-  on wire values (`PP.run`), and the decidable excluding conditions `violations` under which
-  Proofs/Tk.lean shows that `toTk` refines `canon` (each condition is a finding on /repo).
+  The *specification* `canon`, the semantics of a post-processing circuit on wire values
+  (`PP.run`), the refinement relation and the decidable excluding conditions `violation` are in
+  Model/TkSpec.lean; `from_tk.make_units_adjacent` is in Model/TkFrom.lean.
 -/
 import Model.Basic
 
